@@ -100,6 +100,14 @@ theorem c16_clearBoth_ends_force (s : St) (d : Dir) (hc : s.closed = false) :
     ∀ s', step fixed s .clearBoth = some s' → (s'.t d).f = none := by
   intro s' hs; simp [step, hc] at hs; cases hs; cases d <;> simp [stop, St.setT, St.t]
 
+/-- **Dial timeout.** The dial timer of `DialAsyncTimeout` is the write timer; the connect-success wrapper
+    (`connected` = `SetWriteDeadline(time.Time{})`) ends it and stops the timer, so by `c16_no_stale` an established
+    connection is never closed later by the dial timeout. (A wrapper that clears the *read* deadline instead leaves
+    the hypothesis of `c16_no_stale` unmet: that is the stale close the harness looks for.) -/
+theorem c16_connected_ends_dial_timer (s : St) (hc : s.closed = false) :
+    ∀ s', step fixed s .connected = some s' → (s'.t .w).f = none ∧ (s'.t .w).a = none := by
+  intro s' hs; simp [step, hc] at hs; cases hs; simp [stop]
+
 /-- a `Write`/`Writev` that ends with an empty queue ends the write deadline in force -/
 theorem c16_write_drain_ends_force (s : St) (hc : s.closed = false) (hb : s.backlog = false) :
     ∀ s', step fixed s (.write .full) = some s' → (s'.t .w).f = none ∧ s'.backlog = false := by
@@ -181,6 +189,9 @@ example : let s := run fixed init [.set .w 5, .tick 1, .clear .w]
 /-- keep-alive: each `ka` renewal postpones; silence closes -/
 example : (run fixed init [.ka 10, .tick 8, .ka 10, .tick 8, .fire .r, .cb 0]).closed = false := by decide
 example : (run fixed init [.ka 10, .tick 8, .ka 10, .tick 10, .fire .r, .cb 0]).cause = some (.timeout .r) := by decide
+/-- dial timeout: a connection established before the timeout is not closed by it; an unanswered dial is -/
+example : (run fixed init [.dial 10, .tick 2, .connected, .tick 20, .fire .w, .cb 0]).closed = false := by decide
+example : (run fixed init [.dial 10, .tick 10, .fire .w, .cb 0]).cause = some (.timeout .w) := by decide
 /-- user close first: a timer firing later finds the connection closed -/
 example : (run fixed init [.setBoth 5, .close, .tick 9, .fire .r, .cb 0]).cause = some .user := by decide
 /-- an I/O error close leaves the timers running, their callbacks do nothing -/
